@@ -41,6 +41,7 @@ fn main() {
         "elixir" => elixir::run_case,
         "serde" => serde_dom::run_case,
         "conn" => conn::run_case,
+        "hsk" => conn::run_hsk,
         "node" => node::run_case,
         _ => {
             eprintln!("unknown domain {domain}");
